@@ -95,6 +95,20 @@ class ParLexer:
         if not any(n == "CommentsTerm" for n, _, _ in self.terms) or len(self.terms) < 100:
             raise LexError("cannot read the terminals of " + par_path)
         self._sep_cache = {}
+        # speed: a keyword terminal is a literal word that the identifier terminal also matches, so
+        # at a word only the identifier regex is tried and the keyword (earlier in the file, wins the
+        # tie) is looked up afterwards.  Falls back to the plain loop when the grammar has no such shape.
+        self._ident = next(((n, m, r) for n, m, r in self.terms if n == "IdentifierTerm"), None)
+        self._kw = {}
+        self._rest = []
+        for idx, (name, modes, rx) in enumerate(self.terms):
+            src_ = rx.pattern
+            if self._ident and re.fullmatch(r"[a-z_][a-z_0-9]*", src_) and self._ident[2].fullmatch(src_) \
+                    and idx < self.terms.index(self._ident):
+                self._kw[src_] = (name, modes)
+            else:
+                self._rest.append((name, modes, rx))
+        self._word = re.compile(r"[A-Za-z_]")
 
     def lex(self, text, start_mode="INITIAL"):
         """-> list of (kind, text, start, mode_at_start).  Comment runs are one CommentsTerm."""
@@ -112,12 +126,18 @@ class ParLexer:
                     if i >= n:
                         break
             best = None
-            for name, modes, rx in self.terms:
-                if mode not in modes:
-                    continue
-                m = rx.match(text, i)
-                if m and m.end() > i and (best is None or m.end() > best[1]):
-                    best = (name, m.end())
+            if self._ident and mode in self._ident[1] and self._word.match(text, i) and not text.startswith("r#", i):
+                m = self._ident[2].match(text, i)
+                if m:
+                    kw = self._kw.get(m.group(0))
+                    best = (kw[0] if kw and mode in kw[1] else "IdentifierTerm", m.end())
+            if best is None:
+                for name, modes, rx in (self._rest if self._ident and mode in self._ident[1] else self.terms):
+                    if mode not in modes:
+                        continue
+                    m = rx.match(text, i)
+                    if m and m.end() > i and (best is None or m.end() > best[1]):
+                        best = (name, m.end())
             if best is None:
                 raise LexError("no terminal matches at offset %d (mode %s): %r" % (i, mode, text[i:i + 20]))
             name, e = best
@@ -256,7 +276,9 @@ def gen_comment(rng, pr, force_block=False):
         lead = rng.choice(["//", "//", "// ", "///", "/// ", "//!", "////"])
         body = " ".join(_comment_words(rng, pr, rng.randint(0, 5)))
         if rng.random() < pr["p_cr"]:
-            body += "\r" + rng.choice(_WORDS)          # a lone CR does not end the comment
+            # a lone CR does not end the comment for the splitter; keep comment openers out of
+            # the tail (the lexer may end the line comment at the CR when that gives a longer run)
+            body = body.replace("/*", "/ *") + "\r" + rng.choice(["x", "todo", "b", "1", ";"])
         return lead + body + _eol(rng, pr), True
     r = rng.random()
     if r < 0.06:
@@ -278,10 +300,13 @@ def gen_comment(rng, pr, force_block=False):
     body = body.replace("*/", "* /")
     if body.endswith("*") and rng.random() < 0.5:
         body += " "
-    text = rng.choice(["/*", "/*", "/* ", "/**", "/** "]) + body + rng.choice(["*/", " */", "**/"])
-    # the opener's star must not pair with a '/' that starts the body
-    if text.startswith("/*/"):
-        text = "/* " + text[2:]
+    opener = rng.choice(["/*", "/*", "/* ", "/**", "/** "])
+    closer = rng.choice(["*/", " */", "**/"])
+    text = opener + body + closer
+    # the comment must end at its own closer: the first "*/" from offset 2 is the last two characters
+    if text.find("*/", 2) != len(text) - 2:
+        text = opener + " " + body + closer
+    assert text.find("*/", 2) == len(text) - 2, text
     return text, False
 
 
